@@ -10,6 +10,7 @@ mod pipemode;
 mod sexp;
 mod coremode;
 mod tymode;
+mod impmode;
 
 fn main() {
     let args: Vec<String> = std::env::args().collect();
@@ -59,6 +60,7 @@ fn dispatch(mode: &str, payload: &str) -> String {
         "lex" => lexmode::lex(payload),
         "pipe" => pipemode::pipe(payload),
         "core" => coremode::print(payload),
+        "imports" => impmode::imports(payload),
         "tysup" => tymode::sup(payload),
         "tyunion" => tymode::union(payload),
         "tyclasses" => tymode::classes(payload),
